@@ -107,6 +107,19 @@ func genC05(env *core.Env, emit func(core.Case)) {
 		big := r.IntN(12) == 0
 		h := foreignHello(r, echKind, key, tls13, big)
 		recVer := []uint16{0x0301, 0x0303, 0x0300, 0x0304}[r.IntN(4)]
+		if big && r.IntN(2) == 0 {
+			// the largest hellos one record can carry: fragment length 2^14 - {0..5}
+			want := 16384 - r.IntN(6)
+			for j := range h.Exts {
+				if h.Exts[j].Type == 0xff77 {
+					cur := len(h.Record(recVer)) - 5
+					if nl := len(h.Exts[j].Data) + want - cur; nl >= 0 {
+						h.Exts[j].Data = gen.RandBytes(r, nl)
+					}
+				}
+			}
+			env.Count(fmt.Sprintf("hello-fragment-length/%d", len(h.Record(recVer))-5))
+		}
 		rec := h.Record(recVer)
 		var keys []ech.Key
 		switch keyset {
